@@ -58,10 +58,22 @@ package main
 //@   props C19
 //@   requires txn == 0 && nonNilPtr(rm)
 //@   modifies txn, storeState, ioFailed, all(storage.Row.Vals), all(storage.Field.Column), allelems(any), allelems(*storage.Row)
-//@   ensures[len; C19] err == nil && result0 != nil ==> len(result0) == len(dstCols) && fresh(result0)
+//@   ensures[len; C19] err == nil ==> len(result0) == len(dstCols) && fresh(result0)
 //@   allowpanic assert
 //@   allowpanic index
 //@   allowpanic nil
 //@   loop 1 invariant (tl.tokens == nil || fresh(tl.tokens)) && sql.tsOK(ts)
 //@   loop 1 decreases sql.tsMeasure(ts)
 //@   loop 3 invariant len(tokens) == len(dstCols) && fresh(tokens)
+
+// makeConfig: a configuration that is accepted maps every source column to a destination column with a type, and names
+// no negative source index: doBatchInsert's precondition. The flag values themselves are arbitrary strings. An empty
+// -separator makes []rune(*cfgSep)[0] panic at start-up, before any record is read: excluded and listed (allowpanic index).
+//@ func makeConfig(rm engine.RelationManager) (importCfg, error)
+//@   props C19
+//@   requires txn == 0 && nonNilPtr(rm)
+//@   modifies txn, storeState, ioFailed, all(storage.Row.Vals), all(storage.Field.Column), allelems(any), allelems(*storage.Row)
+//@   allowpanic index
+//@   ensures[map.len; C19] err == nil ==> len(result0.colTypes) >= len(result0.srcCols)
+//@   ensures[map.nonneg; C19] err == nil ==> forall i int :: 0 <= i && i < len(result0.srcCols) ==> 0 <= result0.srcCols[i]
+//@   loop 1 invariant (cfg.srcCols == nil || fresh(cfg.srcCols)) && forall k int :: 0 <= k && k < len(cfg.srcCols) ==> 0 <= cfg.srcCols[k]
